@@ -68,7 +68,7 @@ Section Top.
   Proof.
     intros HI Hfr Hv. cbn [valid_op] in Hv. destruct (has_unit_some F WF fuel Hfuel _ Hv) as (ud & Hu).
     destruct (get_CU_at_ok F WF fuel Hfu s u ud HI Hu) as (s1 & id & E1 & HI1 & X1 & Hat).
-    destruct (cu_at_facts F WF fuel Hfu _ _ _ HI1 Hat) as (c & ud' & Hc & Eo & Hu' & Eh & Ed & _).
+    destruct (cu_at_facts F WF fuel Hfu _ _ _ HI1 Hat) as (c & ud' & Hc & Eo & Hu' & Eh & Ed & Hwud).
     assert (ud' = ud) by congruence. subst ud'.
     destruct (get_top_DIE_ok F WF fuel Hfu s1 id c HI1 Hc) as (s2 & top & E2 & HI2 & X2 & Htop & _).
     rewrite Eo, Ed in Htop.
@@ -76,7 +76,9 @@ Section Top.
                                               (af := AFSubtree u [(ud_die_off ud, APStart)]);
       [exact Hfr| |exact HI2|eapply ext_trans; eauto| |].
     - cbn [run_op]. fold P. rewrite (bind_ok _ _ _ _ _ E1), (bind_ok _ _ _ _ _ E2). reflexivity.
-    - constructor. constructor; [|constructor]. constructor. exact Htop.
+    - constructor; [constructor; [|constructor]; constructor; exact Htop|].
+      right. exists ud, [ud_tree ud]. split; [exact Hu|]. split; [|split; [exact I|reflexivity]].
+      cbn [map fst]. f_equal. apply (wf_unit_facts F WF ud Hwud).
     - cbn [spec_step]. rewrite Hu. reflexivity.
   Qed.
 
@@ -220,18 +222,4 @@ Section Top.
         assert (n <> nt - 1) by (intros ->; congruence). lia.
   Qed.
 
-  (* ================================================================ one step *)
-  Lemma ref_Next_plain s afs slot : Inv F s -> frames_rel F s afs ->
-    nav_frame (nth slot afs AFEmpty) = false -> refines s afs (Next slot).
-  Proof.
-    intros HI Hfr Hnav. apply next_finish; auto.
-    assert (Hrel : frame_rel F s (nth slot (frames s) FEmpty) (nth slot afs AFEmpty)).
-    { apply Forall2_nth; [exact Hfr|constructor]. }
-    destruct Hrel; cbn [nav_frame] in Hnav; try discriminate.
-    - apply next_empty; auto.
-    - apply next_cus; auto. constructor; auto.
-    - apply next_sections; auto. constructor; auto.
-    - apply next_symbols; auto. constructor; auto.
-    - apply next_tags; auto. constructor; auto.
-  Qed.
 End Top.
